@@ -32,8 +32,9 @@ RECURSIVE Within(_, _, _)
 Within(pr, fs, n) == IF n = 0 THEN Base(fs) ELSE StepMay(pr, Within(pr, fs, n - 1))
 
 Goal == <<R.gf, R.gv>>
-Sound     == R.verdict = "yes" => (R.holds /\ Goal \in May(R.rules, R.facts))
-Complete  == (R.strat = "dfs" /\ Definite(R.rules) /\ Consistent(R.rules, R.facts) /\ Goal \in Within(R.rules, R.facts, R.depth))
+(* negated queries (NOT goal, closed world) are checked for the clauses that apply to every query: answered, untouched on failure *)
+Sound     == (~R.neg /\ R.verdict = "yes") => (R.holds /\ Goal \in May(R.rules, R.facts))
+Complete  == (~R.neg /\ R.strat = "dfs" /\ Definite(R.rules) /\ Consistent(R.rules, R.facts) /\ Goal \in Within(R.rules, R.facts, R.depth))
                 => R.verdict = "yes"
 Untouched == R.verdict = "no" => R.unchanged
 Answered  == R.verdict \in {"yes", "no"}
